@@ -107,6 +107,10 @@ pub fn run_case(case: &mut Case) {
         gen_tree(&mut p, 2)
     };
     set_headers(&mut spec, 0);
+    if rng.chance(1, 2) {
+        // only the top level has a version
+        spec.version = Some("1.2.3".to_string());
+    }
     let b = Bench::new(case, spec);
     let n_der = if case.thorough { 30 } else { 12 };
     for di in 0..n_der {
@@ -240,6 +244,40 @@ pub fn run_case(case: &mut Case) {
                     // stay valid (incomplete enclosing levels are C10's business)
                     let path: Vec<Vec<u8>> = prefix.clone();
                     prefixes.push((path, *id));
+                }
+            }
+        }
+        // the version flag of the top level is unknown to a subcommand that declares no version:
+        // right of the command name it is judged by the subcommand's parser, which refuses it
+        if b.spec.version.is_some() {
+            if let Some(ci) = line.origin.iter().position(|o| o.role == Role::CmdName) {
+                let end = line
+                    .argv
+                    .iter()
+                    .position(|a| a == b"--")
+                    .unwrap_or(line.argv.len());
+                if ci < end {
+                    let at = rng.range(ci + 1, end);
+                    let splits_arg = at > 0 && at < line.origin.len() + 1
+                        && line.origin.get(at - 1).map_or(false, |o| o.role == Role::ArgName);
+                    if !splits_arg {
+                        let mut argv = line.argv.clone();
+                        argv.insert(
+                            at,
+                            if rng.chance(1, 2) {
+                                b"--version".to_vec()
+                            } else {
+                                b"-V".to_vec()
+                            },
+                        );
+                        b.expect_stderr(
+                            case,
+                            &argv,
+                            "version-flag-of-the-top-level-behind-a-command-name",
+                            "enclosing-version-answers-for-subcommand",
+                            "the subcommand declares no version: an unknown flag there",
+                        );
+                    }
                 }
             }
         }
